@@ -283,10 +283,17 @@ M("c01-async-cond-ignored", ["C01", "C02"], ["C01.reject", "C02.order"],
             return False, None
 """, """        await self.sm._callbacks.async_all(transition.cond.key, *args, **kwargs)
 """))
+M("c07-f29-reintroduced", ["C07"], ["C07.layer"],
+  E(CB, """    def call(*args, **kwargs):
+        self, key, *args = args
+        if key not in self._registry:""", """    def call(self, key: str, *args, **kwargs):
+        if key not in self._registry:"""))
 M("c01-registry-all-missing-key-false", "C01", ["C01.allof"],
-  E(CB, """    def all(self, key: str, *args, **kwargs):
+  E(CB, """    def all(*args, **kwargs):
+        self, key, *args = args
         if key not in self._registry:
-            return True""", """    def all(self, key: str, *args, **kwargs):
+            return True""", """    def all(*args, **kwargs):
+        self, key, *args = args
         if key not in self._registry:
             return False"""))
 
